@@ -6,11 +6,18 @@ From ICV Require Import Base Generated Bind Checker Elab.
 Open Scope string_scope.
 Open Scope list_scope.
 
-Lemma collapse_preconditions_refines (bg og : list pv) (have : bool) (func : pv) :
-  collapse_preconditions (PList bg) (PBool have) (PList og) func
-  = if is_nil bg && have && negb (is_nil og) then Err "TypeError" else Ok (PList (bg ++ og)).
+(** the groups inherited from the bases are copied ([list(group)]): as values the copies are the groups *)
+Lemma copy_groups_value (bgl : list (list pv)) :
+  filter_map_pv (fun x_ => let group := x_ in if true then Some (PList (py_iter group)) else None) (map PList bgl)
+  = map PList bgl.
+Proof. induction bgl as [|g r IH]; cbn; [reflexivity|]. f_equal. exact IH. Qed.
+
+Lemma collapse_preconditions_refines (bgl : list (list pv)) (og : list pv) (have : bool) (func : pv) :
+  collapse_preconditions (PList (map PList bgl)) (PBool have) (PList og) func
+  = if is_nil bgl && have && negb (is_nil og) then Err "TypeError" else Ok (PList (map PList bgl ++ og)).
 Proof.
-  unfold collapse_preconditions. destruct bg as [|b bg]; destruct have; destruct og as [|o og]; reflexivity.
+  unfold collapse_preconditions. cbn [py_iter]. rewrite copy_groups_value.
+  destruct bgl as [|b bgl]; destruct have; destruct og as [|o og]; reflexivity.
 Qed.
 
 Lemma collapse_postconditions_refines (bp op : list pv) :
@@ -18,10 +25,10 @@ Lemma collapse_postconditions_refines (bp op : list pv) :
 Proof. reflexivity. Qed.
 
 (** the order the property speaks of: inherited contracts precede a class's own *)
-Lemma collapse_order_pre (bg og : list pv) (have : bool) func l :
-  collapse_preconditions (PList bg) (PBool have) (PList og) func = Ok (PList l) -> l = bg ++ og.
+Lemma collapse_order_pre (bgl : list (list pv)) (og : list pv) (have : bool) func l :
+  collapse_preconditions (PList (map PList bgl)) (PBool have) (PList og) func = Ok (PList l) -> l = map PList bgl ++ og.
 Proof.
-  rewrite collapse_preconditions_refines. destruct (is_nil bg && have && negb (is_nil og)); [discriminate|].
+  rewrite collapse_preconditions_refines. destruct (is_nil bgl && have && negb (is_nil og)); [discriminate|].
   intros H. injection H as <-. reflexivity.
 Qed.
 
